@@ -244,6 +244,80 @@ pub fn reference(seed: u64, ntracks: usize, hist: &[Op]) -> Vec<Vec<RefSample>> 
     out
 }
 
+impl TrackSpec {
+    /// Statement-level model of add_track: a track whose timescale is 0, or an AVC track whose sequence parameter set
+    /// is shorter than its 4-byte header or whose parameter sets exceed the 16-bit length of avcC, cannot be
+    /// represented and may be refused; every other track must be accepted.
+    pub fn model_may_refuse(&self) -> bool {
+        self.timescale == 0 || (self.kind == Kind::Avc && (self.sps.len() < 4 || self.sps.len() > 65535 || self.pps.len() > 65535)) || self.track_config().is_err()
+    }
+}
+
+/// A grid over the configuration space, for checks whose main dimension is something else (C02 validity, C15
+/// determinism): brand lists with repeats, every kind x languages, every ordered kind pair, every AAC object type x
+/// frequency indices x channel configurations, parameter-set lengths up to the 16-bit limit.
+pub fn config_grid() -> Vec<MovieSpec> {
+    let mut cfgs: Vec<MovieSpec> = vec![];
+    let bvals: [[u8; 4]; 4] = [*b"isom", *b"mp41", [0x80, 0xff, 0xa9, 0xfe], [0, 0, 0, 0]];
+    for n in 0..=4usize {
+        for idx in 0..4usize.pow(n as u32) {
+            let mut c = vec![];
+            let mut i = idx;
+            for _ in 0..n {
+                c.push(bvals[i % 4]);
+                i /= 4;
+            }
+            let mut m = MovieSpec::new(1000, vec![TrackSpec::new(Kind::Avc, 1000)]);
+            m.compat = c;
+            m.major = bvals[idx % 4];
+            cfgs.push(m);
+        }
+    }
+    for k in ALL_KINDS {
+        for lang in ["und", "eng", "", "zzz", "\u{65e5}\u{672c}\u{8a9e}"] {
+            let mut t = TrackSpec::new(k, 1000);
+            t.language = lang.into();
+            cfgs.push(MovieSpec::new(600, vec![t]));
+        }
+        for k2 in ALL_KINDS {
+            cfgs.push(MovieSpec::new(1000, vec![TrackSpec::new(k, 1000), TrackSpec::new(k2, 48000)]));
+        }
+    }
+    for aot in 1..=42u8 {
+        for fi in [0u8, 3, 4, 12] {
+            for ch in [1u8, 2, 7] {
+                let mut t = TrackSpec::new(Kind::Aac, 48000);
+                t.aac = (aot, fi, ch, 128000);
+                cfgs.push(MovieSpec::new(1000, vec![t]));
+            }
+        }
+    }
+    for sl in [4usize, 5, 255, 256, 65535] {
+        for pl in [0usize, 1, 255, 256, 65535] {
+            let mut t = TrackSpec::new(Kind::Avc, 1000);
+            t.sps = (0..sl).map(|i| if i == 0 { 0x67 } else if i == 1 { 66 } else { (i * 7 + 1) as u8 }).collect();
+            t.pps = (0..pl).map(|i| (i * 13 + 5) as u8).collect();
+            cfgs.push(MovieSpec::new(1000, vec![t, TrackSpec::new(Kind::Aac, 44100)]));
+        }
+    }
+    cfgs
+}
+
+/// Two or three small histories for a movie of `config_grid`.
+pub fn grid_histories(m: &MovieSpec) -> Vec<Vec<Op>> {
+    let ts = m.tracks[0].timescale;
+    let mut hs: Vec<Vec<Op>> = vec![vec![], vec![Op { track: 1, size: 3, dur: ts / 2, off: 0, sync: true }, Op { track: 1, size: 1, dur: ts, off: 2, sync: false }]];
+    if m.tracks.len() == 2 {
+        hs.push(vec![Op { track: 2, size: 2, dur: 1024, off: 0, sync: true }, Op { track: 1, size: 3, dur: ts, off: 0, sync: true }, Op { track: 2, size: 1, dur: 1024, off: 0, sync: true }]);
+    }
+    hs
+}
+
+/// Indices (into movie.tracks) of the add_track calls the muxer accepted.
+pub fn accepted_tracks(calls: &[std::result::Result<(), String>], nspecs: usize) -> Vec<usize> {
+    (0..nspecs).filter(|i| calls.get(1 + i).map(|r| r.is_ok()).unwrap_or(false)).collect()
+}
+
 /// The sub-history of calls the muxer accepted (`calls` as returned by `mux_into` for `ntracks` add_track calls).
 pub fn accepted_ops(calls: &[std::result::Result<(), String>], ntracks: usize, hist: &[Op]) -> Vec<Op> {
     hist.iter().enumerate().filter(|(i, _)| calls.get(1 + ntracks + i).map(|r| r.is_ok()).unwrap_or(false)).map(|(_, o)| *o).collect()
@@ -252,7 +326,7 @@ pub fn accepted_ops(calls: &[std::result::Result<(), String>], ntracks: usize, h
 /// Does the statement-level model allow the muxer to refuse this write on a valid track?  Only when the track's
 /// duration in movie-timescale units would no longer fit in 64 bits.
 pub fn model_may_reject(movie: &MovieSpec, accepted_so_far: &[Op], op: &Op) -> bool {
-    let t = movie.tracks[op.track as usize - 1].timescale as u128;
+    let t = movie.tracks.get(op.track as usize - 1).map(|t| t.timescale).unwrap_or(0) as u128;
     if t == 0 {
         return true;
     }
